@@ -33,7 +33,7 @@ RULE = (
 )
 ASSUMPTIONS = ["helper parameters annotated Any (eq/ne/gt/ge/lt/le value, call_method args) are exercised as constants only"]
 FLOORS = {"bracketings_compared": (1500, 30000), "identity_checks": (400, 8000), "split_checks": (1500, 30000), "rshift_checks": (400, 8000),
-          "param_key_checks": (400, 8000), "reuse_checks": (300, 6000), "helper_cases": (170, 170), "helper_cases_with_option_argument": (70, 70), "helpers_covered": (60, 60), "helper_reapplications": (160, 160), "pipeline_history_steps": (3000, 60000), "stateful_step_evaluations": (36, 36)}
+          "param_key_checks": (400, 8000), "reuse_checks": (300, 6000), "helper_cases": (240, 240), "helper_cases_with_option_argument": (140, 140), "helpers_covered": (60, 60), "helper_reapplications": (230, 230), "pipeline_history_steps": (3000, 60000), "stateful_step_evaluations": (36, 36)}
 SHARDS_QUICK = 2
 
 
@@ -277,8 +277,9 @@ def read_at_evaluation_time(ctx):
 class Args:
     """Turns marked arguments into constants or Options (recording the option values)."""
 
-    def __init__(self, as_option):
+    def __init__(self, as_option, with_default=False):
         self.as_option = as_option
+        self.with_default = with_default
         self.options = {}
         self.n = 0
 
@@ -288,7 +289,8 @@ class Args:
         self.n += 1
         key = f"P{self.n}"
         self.options[key] = value
-        return Option(key)
+        # (with a default the key is only a dependency because it is PRESENT in the options explain() is given)
+        return Option(key, default=value) if self.with_default else Option(key)
 
 
 def inc(v):
@@ -409,8 +411,8 @@ def helpers(ctx):
             else:
                 builder, x, expected = row
                 mode = "transform"
-            for as_option in (False, True):
-                V = Args(as_option)
+            for as_option in (False, True, "with-default"):
+                V = Args(bool(as_option), with_default=as_option == "with-default")
                 step = builder(V)
                 if as_option and not V.options:
                     continue
